@@ -5,7 +5,8 @@ Model of the configuration-file layer of pydoctor (property C20):
       `_QUOTED_STR_REGEX`, `_TRIPLE_QUOTED_STR_REGEX`  → `matchSingle`, `matchTriple` (hand-written recognisers of
                                                            exactly the two regular languages, `$` quirk included)
       `is_quoted`, `unquote_str`                        → `isQuoted`, `unquoteStr`
-      `IniConfigParser.parse` (value pipeline)          → `iniValue`, `iniItems`
+      `IniConfigParser.parse` (value pipeline)          → `iniValue`, `iniItems`  (`iniValueOld`/`iniItemsOld` with an
+                                                           interpolation step = the code before commit d27392d)
       `TomlConfigParser.parse` (stringification)        → `tomlItem`, `tomlPick`
       `ValidatorParser.parse`                           → `validate`
   configargparse (third party; a *modelled parameter*, tied to the real module by the correspondence only)
@@ -15,7 +16,7 @@ Model of the configuration-file layer of pydoctor (property C20):
                                                            `insertionIndex`, `mergeOne`, `mergeFiles`
       what argparse then does with the merged argument vector, per option → `effective`
   CPython (parameter, tied by the correspondence): `ast.literal_eval` on a string literal / a list of
-      string literals → `pyEval`, `evalList`; `configparser.BasicInterpolation` → `basicInterp`;
+      string literals → `pyEval`, `evalList`; `configparser.BasicInterpolation` → `basicInterp` (historical);
       `str.strip` → `pyStrip`.
 
 `quote1` / `quote3` are NOT pydoctor code: they are the quoting function of the property ("what is written
@@ -389,9 +390,11 @@ inductive IniVal
 
 def rstripNl (s : Str) : Str := (s.reverse.dropWhile (· = '\n')).reverse
 
-/-- one `(key, value)` of `config[section].items()`: `raw` is the value configparser stored (stripped),
-`interp` the interpolation `config[section]` applies when the item is read. -/
-def iniValue (interp : Str → InterpR) (splitMl : Bool) (raw : Str) : IniVal :=
+/-- HISTORICAL (before /repo commit d27392d): one `(key, value)` of `config[section].items()` when the parser
+was built as `configparser.ConfigParser()`; `raw` is the value configparser stored (stripped), `interp` the
+interpolation `config[section]` applied when the item was read (`basicInterp`).  With `noInterp` this is the
+pipeline of the code today (`iniValue`). -/
+def iniValueOld (interp : Str → InterpR) (splitMl : Bool) (raw : Str) : IniVal :=
   match interp raw with
   | .error => .error .interpolation
   | .unmodelled => .unmodelled
@@ -410,6 +413,11 @@ def iniValue (interp : Str → InterpR) (splitMl : Bool) (raw : Str) : IniVal :=
     else if splitMl && (rstripNl value).contains '\n' then
       .list ((value.splitOn '\n').filter (fun i => !i.isEmpty))
     else .str value
+
+/-- one `(key, value)` of `config[section].items()` — the code today: `ConfigParser(interpolation=None)`, the
+stored (stripped) value is handed over as it is: empty value skipped with `split_ml_text_to_list`, `[…]`
+evaluated as a list, quoted string unquoted, multi-line text split, anything else kept. -/
+def iniValue (splitMl : Bool) (raw : Str) : IniVal := iniValueOld noInterp splitMl raw
 
 /-- the value configparser stores for the one-line entry `key = <text>` -/
 def iniLineValue (text : Str) : Str := pyStrip text
@@ -462,20 +470,24 @@ def dictSet {α : Type} (d : List (Str × α)) (k : Str) (v : α) : List (Str ×
 
 /-- `IniConfigParser.parse` over the sections of the file (in file order): every section named in
 `sections` contributes, later ones overwrite; a refused value refuses the file. -/
-def iniItems (interp : Str → InterpR) (splitMl : Bool) (sections : List Str)
+def iniItemsOld (interp : Str → InterpR) (splitMl : Bool) (sections : List Str)
     (file : List (Str × List (Str × Str))) : Option (Option (List (Str × FileVal))) :=
   -- none = unmodelled, some none = refused
   let entries := (file.filter (fun s => sections.contains s.1)).flatMap (·.2)
   entries.foldl (fun acc kv =>
     match acc with
     | some (some d) =>
-      match iniValue interp splitMl kv.2 with
+      match iniValueOld interp splitMl kv.2 with
       | .skip => some (some d)
       | .str s => some (some (dictSet d kv.1 (.str s)))
       | .list l => some (some (dictSet d kv.1 (.list l)))
       | .error _ => some none
       | .unmodelled => none
     | other => other) (some (some []))
+
+/-- the code today (no interpolation step) -/
+def iniItems (splitMl : Bool) (sections : List Str) (file : List (Str × List (Str × Str))) :
+    Option (Option (List (Str × FileVal))) := iniItemsOld noInterp splitMl sections file
 
 /-! ## 6. Options, `ValidatorParser`, configargparse merge -/
 
@@ -524,6 +536,14 @@ def lookupKey (table : List Opt) (key : Str) : Option Opt :=
   table.reverse.find? (fun o => (possibleKeys o).contains key)
 
 def isKnown (table : List Opt) (key : Str) : Bool := (lookupKey table key).isSome
+
+/-- what argparse guarantees about an option table (conflicting option strings are refused), as an
+executable check: no option string and no config key shared by two options, `--` is not an option string -/
+def flagsDisjointB (T : List Opt) : Bool :=
+  T.all fun a => T.all fun b => a.flags.all fun f => !(b.flags.contains f) || a == b
+def keysDisjointB (T : List Opt) : Bool :=
+  T.all fun a => T.all fun b => (possibleKeys a).all fun k => !((possibleKeys b).contains k) || a == b
+def noSepFlagB (T : List Opt) : Bool := T.all fun o => !(o.flags.contains ['-', '-'])
 
 /-- `ValidatorParser.parse`: known items in order, and the keys warned about
 (`warnings.warn("No such config option: …")`), in order.  Never raises. -/
